@@ -312,10 +312,12 @@ func TestVerifC32(t *testing.T) {
 	jsonSink := make(chan []byte, 4096)
 	refJSON := newTestClientV2(t, n, "ref")
 	refJSON.transport.(*testTransport).setSink(jsonSink)
+	refJSON.transport.(*testTransport).setPing(-1, -1) // no server pings: they would interleave with the recorded pushes
 	connectClientV2(t, refJSON)
 	pbSink := make(chan []byte, 4096)
 	refPB := newTestClientV2Protocol(t, n, "refpb", ProtocolTypeProtobuf)
 	refPB.transport.(*testTransport).setSink(pbSink)
+	refPB.transport.(*testTransport).setPing(-1, -1)
 	connectClientV2(t, refPB)
 	drain := func(ch chan []byte) {
 		for {
